@@ -183,7 +183,9 @@ def numeric(cls):
     def __str__(self):
         return str(int(self))
 
-    setattr(cls, "__str__", __str__)
+    if "__str__" not in cls.__dict__:
+        # do not replace the class's own text form (e.g. member names)
+        setattr(cls, "__str__", __str__)
 
     def __repr__(self):
         return f"{type(self).__name__}({str(self)})"
